@@ -48,6 +48,9 @@ EXPECT = ['{CA}\n{CB}', 'MAP', '    NAME "x" {CC}', '    {CD}', '    WEB', '    
 BODY = '''
 {BUILD}
 sub = {SUB}
+if hist:
+    # the same Parser object has just read another document whose last comments belong to no node
+    MC.transform(PIPEC.parse(OTHER))
 d = MC.transform(PIPEC.parse(TEXT, None, None, sub))
 lines = PP._format(d)
 exp = {EXP}
@@ -92,7 +95,9 @@ def obligations(tier, seed):
             build.append(f"v_{c} = '# ' + {body}")
             sub.append(f"'# {c}': v_{c}")
     exp = "[" + ", ".join(_expr(ln) for ln in EXPECT) + "]"
-    defs = f"\nTEXT = {TEXT!r}\nPLAIN = tsp.plain(mappyfile.loads(TEXT))\n"
+    other = "# o1\nMAP\n  NAME 'o' # o2\n  LAYER\n    TYPE POINT\n    # o3 unattached\n  END\n  # o4 unattached\nEND\n# o5 after the end\n" + "\n" * 20 + "# o6 far below\n"
+    defs = f"\nTEXT = {TEXT!r}\nOTHER = {other!r}\nPLAIN = tsp.plain(mappyfile.loads(TEXT))\n"
+    params = params + [("hist", "bool")]
     src = PRELUDE + defs + harness("h", params, conj(pre), BODY.format(BUILD="\n".join(build), SUB="{" + ", ".join(sub) + "}", EXP=exp))
     return [Ob(name="C14-PLACE/cover", source=src, pct=900, timeout=1000,
                meta={"desc": f"12 comments with symbolic text ({L} code points each) at the documented placements: full line list vs committed expectation; content == plain load",
